@@ -53,7 +53,7 @@ def run(ck: Check) -> None:
     successor_protocol(ck, "T6")
     t8(ck, gm)
     t9(ck, gm)
-    ck.floor("T9", 4)
+    ck.floor("T9", 5)
     source_variables(ck, "T6")
     ck.floor("T1", 8)
     ck.floor("T2", 14)
@@ -762,6 +762,53 @@ def t9(ck: Check, gm: GrowthModel) -> None:
                   "grows the diagram through the single-node expansion only", key=f"{f.qualname} growth")
     if n == 0:
         raise AnalysisError("anchor vanished: plain expansion drivers")
+    # the accessor all drivers expand through grows the diagram by the single-node expansion only
+    try:
+        ns = ck.prog.fm(SD_MOD, "SuccessionDiagram.node_successors")
+        probs = [f"line {g.stmt.lineno}: `{text(g.stmt)[:60]}` creates nodes / edges directly" for g in gm.events(ns)]
+        probs += [f"line {e.stmt.lineno}: `{e.field}` of `{e.nid}` is written by the accessor itself" for e in ns.field_events()
+                  if e.kind == "store" and e.field in ("expanded", "skipped")]
+        ck.ob("T9", ns, ns.f.node, not probs, ("; ".join(sorted(set(probs))) + ": successors that do not come from the single-node "
+              "expansion need not be the maximal trap spaces of the node (nor carry them as motifs)") if probs else
+              "node_successors expands through _expand_one_node only", key="node_successors growth")
+    except AnalysisError:
+        pass
+    # skip nodes are not nodes of the full diagram: the plain strategies never ask for them, and the public wrapper asks for
+    # them only when told to
+    for mod in PLAIN_DRIVERS:
+        m = ck.prog.repo.module(mod)
+        for f in ck.prog.repo.funcs():
+            if f.module is not m:
+                continue
+            fm = ck.prog.model(f)
+            for c in own_walk(f.node):
+                if not isinstance(c, ast.Call):
+                    continue
+                bad = None
+                if callee_name(c) in ("skip_remaining", "skip_to_minimal"):
+                    bad = f"`{text(c)[:50]}` turns nodes into skip nodes"
+                for k in c.keywords:
+                    if k.arg in ("skip_ignored", "skip_remaining") and not is_false(k.value):
+                        bad = f"`{text(c)[:50]}` asks for skip nodes ({k.arg}={text(k.value)})"
+                if callee_name(c) == "expand_minimal_spaces" and len(c.args) > (3 if isinstance(c.func, ast.Name) else 2):
+                    bad = f"`{text(c)[:50]}` passes the skip flag positionally"
+                if bad:
+                    ck.ob("T9", fm, f.stmt_of(c), False, f"{bad}: a plain strategy must produce a sub-diagram of the full succession "
+                          f"diagram, which has no skip edges (overlapping skip nodes also report one attractor twice)",
+                          key=f"skip nodes in {f.qualname}")
+    for mq, q, pname in ((SD_MOD, "SuccessionDiagram.expand_minimal_spaces", "skip_ignored"),
+                         ("biobalm._sd_algorithms.expand_minimal_spaces", "expand_minimal_spaces", "skip_remaining")):
+        try:
+            fmw = ck.prog.fm(mq, q)
+        except AnalysisError:
+            continue
+        dflt = fmw.f.param_defaults().get(pname)
+        if pname in fmw.f.params():
+            okd = dflt is not None and is_false(dflt)
+            ck.ob("T9", fmw, fmw.f.node, okd, f"`{pname}` defaults to False" if okd else
+                  f"`{pname}` defaults to `{text(dflt) if dflt is not None else 'nothing'}`: the plain minimal-space expansion (and the "
+                  f"attractor-seed expansion built on it) would create skip nodes, which are not nodes of the full diagram",
+                  key=f"default of {pname} in {q}")
 
 
 def t8(ck: Check, gm: GrowthModel) -> None:
